@@ -28,11 +28,14 @@ from checks import registry
 ID = "C19"
 LEVEL = "exploration"
 RULE = ("one run = one history of <= 14 operations over a pool that starts "
-        "with 2-3 formulas, 3 graphs and 3 lists: transformations (results "
+        "with 2-3 formulas, 3 graphs (cnfgen objects or networkx Graph / "
+        "DiGraph / bipartite graphs with integer or string sides) and 3 "
+        "lists: transformations (results "
         "join the pool), Shuffle with explicit lists from the pool, families "
         "called on pool graphs/lists, constraint builders called with pool "
         "lists (all operators incl. '!=', valid and raising), and later "
-        "mutations of arbitrary pool members; deep snapshots of all members "
+        "mutations of arbitrary pool members (incl. editing, deleting and "
+        "reordering standard header entries); deep snapshots of all members "
         "are compared after every step. Non-trivial: >= 1 transformation "
         "result was mutated later or >= 2 chained transformations; distinct "
         "= distinct case.")
